@@ -80,6 +80,29 @@ pub fn handle_hdel(storage: &mut EngineModel, db: usize, parts: &[RespFrame]) ->
 //@@ body
 //@@ end
 
+impl EngineModel {
+    /// the same engine function with the fields handed over by value vector (script path)
+    #[verifier::external_body]
+    pub fn hdel_v(&mut self, db: usize, key: Vec<u8>, fields: &Vec<Vec<u8>>) -> (r: Result<usize>)
+        ensures res_int(r, spec_hdel(old(self).ds@, db as int, key@, vecs_set(fields@)).0),
+            final(self).ds@ == spec_hdel(old(self).ds@, db as int, key@, vecs_set(fields@)).1,
+    { unimplemented!() }
+}
+/// MODEL of UnifiedCommandExecutor (the implementation scripts reach through redis.call): the storage engine model
+pub struct UnifiedCommandExecutor { pub storage: EngineModel }
+impl UnifiedCommandExecutor {
+//@@ unit exec_hdel arm src/storage/commands/executor.rs UnifiedCommandExecutor::execute_hash "HashCommand::HDel { key, fields }"
+//@@   params drop "&self" add "&mut self"
+//@@   rewrite RT "self.storage.hdel(db, key, &fields)" "self.storage.hdel_v(db, key, &fields)"
+    fn exec_hdel(&mut self, db: usize, key: Vec<u8>, fields: Vec<Vec<u8>>) -> (r: Result<RespFrame>)
+        ensures
+            // the effect and the reply of the direct HDEL for the same fields (handle_hdel above)
+            r is Ok ==> cmd_ok(r, final(self).storage.ds@, spec_hdel(old(self).storage.ds@, db as int, key@, vecs_set(fields@))),
+            r is Err ==> spec_hdel(old(self).storage.ds@, db as int, key@, vecs_set(fields@)).0 is WrongType && final(self).storage.ds@ == old(self).storage.ds@,
+//@@ body
+//@@ end
+}
+
 // ======================= HSET / HMSET: the field-value pairs =========================
 /// the (field, value) pairs the command names: arguments 2,3 / 4,5 / ...
 pub open spec fn hash_pairs(parts: Seq<RespFrame>) -> Seq<(Vec<u8>, Vec<u8>)> {
